@@ -195,6 +195,10 @@ macro_rules! kind {
     };
 }
 
+kind!(PVec, Vec, None, true, true);
+kind!(PDense, Dense, None, true, true);
+kind!(PDefVec, DefVec, None, true, true);
+kind!(PHash, None, None, true, true);
 kind!(CVec, Vec, None, true, true);
 kind!(CVec2, Vec, None, true, true);
 kind!(CDense, Dense, None, true, true);
